@@ -161,11 +161,15 @@ Definition c01_scope2 (ord : hord) (sw : switches) (dt : detection) : bool :=
   (sw_coalesce sw || Scope.no_quant_ident (d_expr dt)) &&
   (negb (sw_shake sw) || shake_input_ok2 ord sw dt).
 (* text proposed for Model/Scope.v *)
+Definition entry_trees (e : expr) : list expr := match e with EGroup _ l => l | _ => [e] end.
 Definition run_safe (ord : hord) (sw : switches) (dt : detection) : bool :=
   let st := staged sw dt in
   shake1_safe ord false (shake_fuel (fst (shaken0 st))) (fst (shaken0 st)) &&
-  forallb (fun b : str * expr => shake1_safe ord (body_neg st) (shake_fuel (snd b)) (snd b))
-          (snd (shaken0 st)).
+  forallb (fun b : str * expr =>
+             forallb (fun x => let m := ok_or (shake0 (shake_fuel x) x) x in
+                               shake1_safe ord (body_neg st) (shake_fuel m) m)
+                     (entry_trees (snd b)))
+          (snd st).
 
 Theorem scope2_sound_alt : forall o ic ord sw y r (d : doc),
   (forall l, Permutation (ord l) l) ->
